@@ -111,3 +111,10 @@ pub fn replay_one(prop: &str, path: &std::path::Path, out: Outcome) -> i32 {
         }
     }
 }
+
+/// drops scenarios that occur more than once (scenario grids are unions of families that may overlap): the evidence
+/// counts distinct scenarios
+pub fn dedup<S>(v: Vec<S>, key: impl Fn(&S) -> String) -> Vec<S> {
+    let mut seen = std::collections::HashSet::new();
+    v.into_iter().filter(|s| seen.insert(key(s))).collect()
+}
